@@ -323,6 +323,15 @@ def run_conditions(ctx, conds, workers=16):
 
 
 def _process(ctx, cond):
+    try:
+        return _process0(ctx, cond)
+    except Exception:
+        import traceback
+        ctx.add(cond.name, 'crosshair', ERROR, 0.0, detail='runner exception')
+        ctx.error(cond.name, 'exception in the runner: ' + traceback.format_exc()[-1200:])
+
+
+def _process0(ctx, cond):
     res = run_one(cond)
     rounds = 0
     while True:
@@ -361,11 +370,13 @@ def _process(ctx, cond):
         if cond.own and not res.get('narrowed'):
             mw = re.search(r'why: (c\d+t?):', out)
             if mw and mw.group(1) not in cond.own:
+                fixed0 = cond.fixed
                 ctx.notes.append('%s: counterexample belongs to clause %s (another property); re-deciding with %s only'
                                  % (cond.name, mw.group(1), ','.join(cond.own)))
                 cond = Cond(cond.module, cond.func, cond.timeout, cond.path_timeout, cond.bound, cond.symbolic,
                             cond.realised, None, cond.name + '/own', dict(cond.env, VP_CLAUSES=','.join(cond.own)),
                             cond.extra_pre, cond.group, None)
+                cond.fixed = dict(fixed0)
                 res = run_one(cond)
                 res['narrowed'] = True
                 continue
